@@ -7,13 +7,15 @@ VERIF = os.path.dirname(os.path.dirname(os.path.abspath(__file__)))
 
 # property -> (ready, technique, level text, level note, design ref)
 CHECKS = {
-    'C01': dict(ready=False, technique='TLC trace validation of step/observation/membership records against GVTransitions/GVState + TLC model checking of closure on small scopes',
+    'C01': dict(ready=True, technique='TLC trace validation of step/observation/membership records against GVTransitions/GVState + TLC model checking of closure on small scopes',
                 text='Every state of the small-scope families (all fillings of 1x2/2x1 grids from a 15-kind alphabet, 3x3 with few non-floor cells, every pose and held item) x every action x compositions is run through GridWorld.functional_step with debug checks on; TLC checks outcome, closure, reward/flag types on every record and model-checks closure of the specification; membership predicates compared on conforming states and single-fault mutants.',
                 note='numpy generator semantics; small-scope hypothesis for grid size; documented component preconditions'),
     'C02': dict(ready=True, technique='TLC enumeration of all interleavings (GVMultiEnv, with isolation action properties) replayed on real environments + digest memo across schedules and processes',
                 text='TLC enumerates every interleaving (depth 5 quick / 6 thorough, 2 environments; simulated longer schedules with 3) of environment operations, library-level draws, global numpy/python generator use and debug toggles; each schedule is executed on real environments, every result is memoised under (configuration, seed, own history) and must agree wherever it recurs, the three global generators are compared around every seeded operation, canonical runs of all shipped configurations are repeated in interpreter processes with different PYTHONHASHSEED, and every stochastic component is audited with an explicit recording generator.',
                 note='trusted: numpy generator determinism; digests are SHA-256 prefixes of the canonical JSON projection'),
-    'C03': dict(ready=False, technique='TLC heap model behaviours replayed on real objects with identity/value snapshots; GVCache behaviours replayed on lru caches', text='', note=''),
+    'C03': dict(ready=True, technique='TLC enumeration of all operation sequences of the GVHeap model (AliasFree, OnlyMutateChanges) replayed on real State objects with identity/value snapshots; GVCache behaviours replayed on the real lru caches',
+                text='Every sequence (length 4 quick / 5 thorough, up to 3 handles) of functional step, copy, caller mutation, observation/reward/termination questions and repeated questions is executed on real states (boxes with nested content, doors, held items; several compositions; directly and through GridWorld); after every operation all live handles are re-projected and compared by value and by the identity of every mutable component; LRU hit/miss/eviction histories are replayed on the real shortest-path and ray caches.',
+                note='identity = id() of grid container, row lists, every GridObject incl. box contents, Agent and Transform while all handles are alive'),
     'C04': dict(ready=True, technique='TLC enumeration of all call sequences of the GVEnv machine (with NotStale etc. as invariants) replayed on real GridWorld/OuterEnv with counting wrappers against a functional mirror',
                 text='Every sequence of reset / step / invalid step / observation and state reads / outer reads up to length 5 (6 thorough), plus interleavings with the functional interface and long simulated behaviours on all shipped configurations, is executed on real environments whose five components are wrapped in counters and whose generator records draws; after each operation outcome class, call counters, generator use, and equality with a second environment driven purely through the functional interface are compared with the machine.',
                 note='the machine abstracts states to identities; values are compared against the functional mirror, which C02 shows to be reproducible'),
@@ -53,7 +55,9 @@ CHECKS = {
     'C16': dict(ready=True, technique='TLC model checking of injectivity / disjoint channels / consecutive compact values (MC_Rep) + TLC trace validation of per-member encodings and pairs (Trace_Rep)',
                 text='On the specification: injectivity of the three encodings on all objects of all spaces, default = index triple, disjoint channel ranges for no-overlap, consecutive values from zero for compact. On the code: every converted array equals the positional encoding of the specification (agent marker exactly at the agent cell), and for pairs of members equal arrays <=> equal members <=> python ==, with equal hashes.',
                 note='box content is not part of equality (as in the library); quick tier samples spaces'),
-    'C17': dict(ready=False, technique='', text='', note=''),
+    'C17': dict(ready=True, technique='TLC enumeration of single corruptions with verdicts from the registry tables (GVConfig) applied to the real factory + TLC trace validation of shipped trajectories against the specification instantiated with the configuration',
+                text='All shipped files: identical packaged copies, id mapping, build twice, input unchanged, identical trajectories for two builds and for an environment assembled by hand from the registered functions with the parameters the specification table accepts; every step / observation / reset of those trajectories is validated by TLC against the specification instantiated with the configuration data. Every single corruption TLC enumerates (unknown names per slot, each parameter removed, unknown extra parameter, malformed shapes/layouts/colours/objects/actions, missing keys, empty lists) is applied to the real data and the outcome of factory_env_from_data compared with the verdict.',
+                note='malformed areas are outside the statement; the coin example (custom components) is covered by build / repeatability only'),
     'C18': dict(ready=True, technique='TLAPS proofs over Int (GVGeometryProofs, 64 obligations) + TLC model checking (MC_Geom) + TLC trace validation of every geometry operator of the code (Trace_Geom)',
                 text='The group, action, isometry, transform and area laws are proved with TLAPS for all integers on the specification; the finite-set statements and grid rotation laws are model-checked for small coordinates/shapes; every public operator of geometry.py, Grid rotation, get_next_position and get_manhattan_boundary is run on the exhaustive small domain and on random coordinates up to 2^29 and each result is compared by TLC with the specification operator.',
                 note='proofs are about the specification; the code is bound to it by conformance (exhaustive small + random large), which is sound because the operators branch on the orientation only'),
